@@ -104,7 +104,8 @@ def documents():
     docs.append(('arrays', T({'empty': [], 'ints': [1, 2, 3], 'nested': [[1], [], [[2]]], 'mixed': [1, 'two', True, [3]], 'strs': S[:6], 'tables': [IT({'a': 1}), IT({}), IT({'b': IT({'c': [1]})})]})))
     docs.append(('inline tables', T({'empty': IT({}), 'one': IT({'a': 1}), 'nested': IT({'a': IT({'b': IT({})}), 'k w': 'v'}), 'dotted': IT({'x': IT({'y': 1, 'z': IT({'w': 2}, dotted=True)}, dotted=True), 'v': 3})})))
     docs.append(('tables', T({'top': 1, 't': T({'a': 1, 'sub': T({'b': 2, 'deep': T({'c': 3})})}), 'u': T({}), 'last': T({'z': 'z'})})))
-    docs.append(('implicit tables', T({'a': T({'b': T({'c': T({'v': 1})}, implicit=True)}, implicit=True), 'e': T({'f': T({})}, implicit=True)})))
+    docs.append(('implicit tables', T({'a': T({'b': T({'c': T({'v': 1})}, implicit=True)}, implicit=True), 'e': T({'f': T({})}, implicit=True),
+                                       'lints': T({'rust': T({'unsafe_code': 'deny'}, implicit=True, dotted=True)}, implicit=True), 'z': T({'k': 1})})))
     docs.append(('dotted-key tables', T({'v': 0, 'd': T({'x': 1, 'e': T({'y': 2}, implicit=True, dotted=True), 'i': IT({'z': 3}, dotted=True)}, implicit=True, dotted=True), 't': T({'p': T({'q': 1}, implicit=True, dotted=True), 'r': 2})})))
     docs.append(('arrays of tables', T({'top': 1, 'aot': AOT(T({'a': 1}), T({}), T({'b': 2, 'sub': T({'c': 3}), 'inner': AOT(T({'d': 4}), T({'e': 5}))})), 'after': T({'z': 1})})))
     docs.append(('values after tables', T({'t': T({'a': 1}), 'late': 2, 'aot': AOT(T({'b': 1})), 'later': [1], 'u': T({'c': 1}), 'latest': IT({'k': 1})})))
